@@ -539,8 +539,13 @@ def load_database(dbpath, rootdir):
 
     configuration = []
     for command in db:
-        # Skip commands that invoke unsupported tools.
-        if not command.is_supported():
+        # Skip commands that invoke unsupported tools, and command strings
+        # that cannot be split into arguments (e.g. an unbalanced quote).
+        try:
+            if not command.is_supported():
+                continue
+        except ValueError as e:
+            log.warning(f"Ignoring command for {command.filename}: {e}")
             continue
 
         # Files may be specified:
